@@ -943,6 +943,12 @@ archive_write_zip_header(struct archive_write *a, struct archive_entry *entry)
 		}
 	}
 	filename_length = path_length(zip->entry);
+	if (filename_length > 0xffff) {
+		/* The length fields of both headers have 16 bits. */
+		archive_set_error(&a->archive, ENAMETOOLONG,
+		    "Pathname too long");
+		return (ARCHIVE_FAILED);
+	}
 
 	/* Determine appropriate compression and size for this entry. */
 	if (type == AE_IFLNK) {
